@@ -54,6 +54,9 @@ def gen_cases(rng, tier):
                  'schema': dict((f, rng.pick(TYPES)) for f in names), 'policy': pol}
         # how a custom handler is written: all parameters required, the last one(s) with defaults, a callable object
         c['shape'] = rng.pick(['required', 'default', 'extra', 'object'])
+        # missing-value tokens declared on the resource's schema (Table Schema's cast reads them as null; without ''
+        # among them an empty string is a value like any other)
+        c['mv'] = rng.pick([None, None, None, ['', 'NA'], ['NA', 'x'], ['x', '2,5', 'true']])
         cases.append(c)
     return cases
 
@@ -117,12 +120,15 @@ def run_impl(case):
         res = [mk_resource('t', case['names'], rows, types=dict((f, 'any') for f in case['names']))]
         if case['two']:
             res.append(mk_resource('other', case['names'], rows, types=dict((f, 'any') for f in case['names'])))
+        for r_ in res:
+            r_['missingValues'] = case.get('mv')
         kw = dict(case['options'])
         step = DF.set_type(case['name'], resources='t', regex=case['regex'], on_error=pol,
                            transform=_tr if case['transform'] else None, **kw)
     else:
         r = mk_resource('t', case['names'], rows)
         r['fields'] = [dict(case['schema'][f], name=f) for f in case['names']]
+        r['missingValues'] = case.get('mv')
         res = [r]
         step = DF.validate(on_error=pol)
     try:
@@ -153,7 +159,7 @@ def run_impl(case):
 def ts_cast(case, f, v):
     """Table Schema's cast: ('ok', value) | ('bad',)"""
     try:
-        return ('ok', Field(field_desc(case, f)).cast_value(v))
+        return ('ok', Field(field_desc(case, f), missing_values=case.get('mv') or ['']).cast_value(v))
     except CastError:
         return ('bad',)
 
